@@ -221,6 +221,10 @@ def read_filter_suites(fi):
             elif isinstance(c, ast.Compare) and len(c.ops) == 1 and isinstance(c.ops[0], ast.GtE) \
                     and isinstance(c.left, ast.Name) and c.left.id == "version":
                 minv = ast.literal_eval(c.comparators[0])
+            elif isinstance(c, ast.Compare) and len(c.ops) == 1 and isinstance(c.ops[0], ast.Gt) \
+                    and isinstance(c.left, ast.Name) and c.left.id == "version":
+                v_ = ast.literal_eval(c.comparators[0])
+                minv = (v_[0], v_[1] + 1)          # `version > (3, 3)` admits (3, 4) upwards
             else:
                 raise AnalysisError("_filterSuites: unrecognised condition %s" % norm(c))
         if name is None and minv is not None and lst == "CipherSuite.tls13Suites":
@@ -997,6 +1001,51 @@ def rule_policy(ctx):
               "no _filterSuites row for key exchange names %s" % sorted(set(kx_meaning) - seen), loc)
 
 
+def rule_keypair(ctx):
+    """KEYPAIR: the certificate and key the server authenticates with are the ones selected TOGETHER with
+    the cipher suite.  _serverGetClientHello ends by yielding (hello, version, suite, scheme, key, chain);
+    its consumer unpacks exactly that tuple - every element, no slicing - so the suite's authentication
+    type and the key pair cannot come apart (an ECDHE_ECDSA suite answered with the default RSA pair)."""
+    from ..query import is_value_yield, yield_value, call_name
+    R = "C20.KEYPAIR"
+    prod = ctx.index.func("tlsconnection:TLSConnection._serverGetClientHello")
+    gp = ctx.an.cfg(prod)
+    arities = set()
+    names = None
+    for n in gp.nodes:
+        if is_value_yield(n):
+            v = yield_value(n)
+            if isinstance(v, ast.Tuple):
+                arities.add(len(v.elts))
+                names = [norm(x) for x in v.elts]
+    if len(arities) != 1:
+        raise AnalysisError("%s: _serverGetClientHello does not end in one tuple-valued yield (arities %s)" % (R, sorted(arities)))
+    k = arities.pop()
+    cons = ctx.index.func("tlsconnection:TLSConnection._handshakeServerAsyncHelper")
+    found = 0
+    for st in own_nodes(cons.node):
+        if isinstance(st, ast.For) and isinstance(st.iter, ast.Call) and call_name(st.iter) == "_serverGetClientHello" \
+                and isinstance(st.target, ast.Name):
+            var = st.target.id
+            # the first assignment from the loop variable after the loop
+            later = [a for a in own_nodes(cons.node) if isinstance(a, ast.Assign) and a.lineno > st.lineno
+                     and any(isinstance(x, ast.Name) and x.id == var for x in ast.walk(a.value))]
+            later.sort(key=lambda a: a.lineno)
+            if not later:
+                continue
+            a = later[0]
+            found += 1
+            tg = a.targets[0]
+            ok = isinstance(a.value, ast.Name) and isinstance(tg, ast.Tuple) and len(tg.elts) == k
+            ctx.check(R, ok, cons.qname, a,
+                      "_serverGetClientHello hands back %d values %s; the handshake helper takes `%s`: the key pair "
+                      "selected with the cipher suite is dropped and the caller's default pair is used" % (
+                          k, names, norm(a)[:90]), cons.loc(a),
+                      what="the server helper unpacks all %d values selected with the suite" % k)
+    if found != 1:
+        raise AnalysisError("%s: consumer of _serverGetClientHello not found" % R)
+
+
 RULES = [
     ("C20.TABLES", "quick", rule_tables),
     ("C20.CLASS", "quick", rule_class),
@@ -1005,6 +1054,7 @@ RULES = [
     ("C20.KX", "quick", rule_kx),
     ("C20.PRF", "quick", rule_prf),
     ("C20.POLICY", "quick", rule_policy),
+    ("C20.KEYPAIR", "quick", rule_keypair),
     ("C20.SRV-PICK", "quick", borrowed("c03", "rule_srv_pick", "C03.SRV-PICK", "C20.SRV-PICK")),
     ("C20.VERSION-GATE", "quick", borrowed("c03", "rule_suite_version", "C03.SH-GATES", "C20.VERSION-GATE")),
 ]
